@@ -570,6 +570,7 @@ MonEnv(m, rec) ==
   CASE rec.f = "setmem" -> MemChange(m, rec.c, rec.v, rec.val, "top")
     [] rec.f = "flag" -> LET m1 == [m EXCEPT !.cfg = SetFlag(m.cfg, rec)] IN
                          IF m.lost \/ (m.cph = "idle" /\ ~m.nb) THEN m1 ELSE Unclassified(m1)
+    [] rec.f = "gname" -> [m EXCEPT !.cfg = SetGroupName(m.cfg, rec)]
     [] rec.f = "settled" -> IF rec.ok \/ m.lost \/ (m.cph = "held" /\ m.rel = 0) THEN m
                             ELSE AddBad(m, "C15", <<"no quiescence within the call budget", rec.calls>>)
     [] rec.f = "note" -> IF rec.t = "rt_begin" THEN [m EXCEPT !.rt = TRUE] ELSE IF rec.t = "rt_end" THEN [m EXCEPT !.rt = FALSE] ELSE m
